@@ -307,6 +307,81 @@ pub fn run(ctx: &Ctx) -> i32 {
         }
     });
     ctx.put("high_address_slice_forms", json!(high.len()));
+    // operand-path slice: the same encodings when the operands arrive through a .def alias, an .equ
+    // symbol, a forward label / .set variable, or as arguments of a macro (text spliced and re-parsed)
+    let ctxwork: Vec<usize> = (0..forms.len()).collect();
+    fw::par_items(&ctxwork, |_, fi| {
+        let form = &forms[*fi];
+        if form.ops.is_empty() {
+            return;
+        }
+        let mut r = Rng::for_case(ctx.seed, 0xC01_B, *fi as u64);
+        let space = form.space();
+        for round in 0..8u64 {
+            let vals = if round == 0 { form.tuple_at(0) } else if round == 1 { form.tuple_at(space - 1) } else { form.tuple_at(r.below(space)) };
+            let mut pre = header(form);
+            let mut direct: Vec<String> = vec![];
+            let mut indirect: Vec<String> = vec![];
+            for (i, v) in vals.iter().enumerate() {
+                match form.ops[i] {
+                    Opk::Reg { .. } => {
+                        pre.push_str(&format!(".def al_{} = r{}\n", i, v));
+                        indirect.push(if r.chance(1, 2) { format!("al_{}", i) } else { format!("AL_{}", i) });
+                        direct.push(format!("r{}", v));
+                    }
+                    Opk::Imm { .. } | Opk::ImmCom { .. } | Opk::Addr8l { .. } => {
+                        if r.chance(1, 2) {
+                            pre.push_str(&format!(".equ sym_{} = {}\n", i, v));
+                        } else {
+                            pre.push_str(&format!(".set sym_{} = {} - 1\n.set sym_{} = sym_{} + 1\n", i, v, i, i));
+                        }
+                        indirect.push(format!("Sym_{}", i));
+                        direct.push(format!("{}", v));
+                    }
+                    Opk::Rel { .. } => {
+                        let t = *v + 1;
+                        let e = if t >= 0 { format!("pc+{}", t) } else { format!("pc-{}", -t) };
+                        indirect.push(e.clone());
+                        direct.push(e);
+                    }
+                    Opk::Index(ix) => {
+                        indirect.push(ix.text().to_string());
+                        direct.push(ix.text().to_string());
+                    }
+                    Opk::Disp { reg, .. } => {
+                        pre.push_str(&format!(".equ dsp_{} = {}\n", i, v));
+                        indirect.push(format!("{}+dsp_{}", reg, i));
+                        direct.push(format!("{}+{}", reg, v));
+                    }
+                }
+            }
+            let params: Vec<String> = (0..vals.len()).map(|i| format!("@{}", i)).collect();
+            let src = format!(
+                "{}.macro enc_mac\n\t{} {}\n.endm\n\t{} {}\n\tenc_mac {}\n\tEnc_Mac {}\n",
+                pre,
+                form.mn,
+                params.join(", "),
+                form.mn,
+                indirect.join(", "),
+                direct.join(", "),
+                indirect.join(", ")
+            );
+            let w = isa::words_to_bytes(&isa::encode(form, &vals));
+            let mut expect = vec![0u8; header_pad(form)];
+            for _ in 0..3 {
+                expect.extend(&w);
+            }
+            let out = fw::build_str(&src);
+            ctx.eval(3);
+            if !matches!(&out, Outcome::Ok(b) if b.code == expect) {
+                ctx.violation(
+                    format!("enc/{}/operand-path", form.name),
+                    format!("`{} {}` written through aliases/symbols/macro arguments: {}", form.mn, direct.join(", "), fw::clip(&format!("{:?}", out.brief()), 200)),
+                    json!({"source": src, "form": form.name, "vals": vals, "operand_path": true, "expect_code": fw::hex(&expect[header_pad(form)..], 64)}),
+                );
+            }
+        }
+    });
     let sh = Shared {
         first_words: (0..1024).map(|_| AtomicU64::new(0)).collect(),
         per_mn: Mutex::new(BTreeMap::new()),
@@ -326,7 +401,7 @@ pub fn run(ctx: &Ctx) -> i32 {
     crate::refmodel::llvm::crosscheck(ctx, ctx.tier == Tier::Thorough);
     fw::finish(
         ctx,
-        "every ISA-legal operand tuple of every supported instruction form is assembled (batches of 4096 lines, random radix/case/blank spelling) and compared byte-for-byte with the reference encoder and re-decoded by an independent decoder; `exhaustive` refers to the spaces listed under complete_spaces; distinct_nontrivial = distinct first instruction words emitted (bitmap over 65536)",
+        "every ISA-legal operand tuple of every supported instruction form is assembled (batches of 4096 lines, random radix/case/blank spelling) and compared byte-for-byte with the reference encoder and re-decoded by an independent decoder; plus a high-address slice (48 tuples per form behind .org 0x12345) and an operand-path slice (8 tuples per form written through .def aliases, .equ/.set symbols and macro arguments); `exhaustive` refers to the spaces listed under complete_spaces; distinct_nontrivial = distinct first instruction words emitted (bitmap over 65536)",
         &[
             "refmodel/isa.rs is a faithful transcription of the AVR Instruction Set Manual (self-checked decode∘encode, cross-checked against llvm-mc-14 where available)",
             "relative operands are written as pc±k at word address 4096; label-based targets belong to C03",
@@ -340,7 +415,14 @@ pub fn replay(ctx: &Ctx, case: &Value) -> i32 {
     let src = case["source"].as_str().unwrap_or("");
     let text = src.lines().last().unwrap_or("");
     ctx.eval(1);
-    if let Some(org) = case["high_address"].as_u64() {
+    if case["operand_path"].as_bool() == Some(true) {
+        let out = fw::build_str(src);
+        let pad = header_pad(form);
+        let ok = matches!(&out, Outcome::Ok(b) if b.code.len() >= pad && Some(fw::hex(&b.code[pad..], 64).as_str()) == case["expect_code"].as_str());
+        if !ok {
+            ctx.violation(format!("enc/{}/operand-path", form.name), "replayed case still deviates".to_string(), case.clone());
+        }
+    } else if let Some(org) = case["high_address"].as_u64() {
         let out = fw::build_str(src);
         let mut expect = vec![0u8; org as usize * 2];
         expect.extend(isa::words_to_bytes(&isa::encode(form, &vals)));
